@@ -8,10 +8,10 @@ git checkout -q -- . ; git clean -fdq
 git apply $out/patch.diff || { echo "PATCH DOES NOT APPLY"; exit 3; }
 cp $out/$demo.rs fastrace/tests/$demo.rs 2>/dev/null || { echo "no demo file $out/$demo.rs"; ls $out; exit 3; }
 echo "== with change: demo"
-(cd fastrace && cargo test --test $demo --offline 2>&1 | grep -E "^test result|^test .*(FAILED|ok)$|error(\[|:)" | head -12)
+(cd fastrace && RUSTFLAGS="${DEMO_RUSTFLAGS:-}" cargo test --test $demo --offline ${DEMO_RUSTFLAGS:+--target-dir /tmp/wt/target-demo-$id} 2>&1 | grep -E "^test result|^test .*(FAILED|ok)$|error(\[|:)" | head -12)
 echo "== without change: demo"
 git apply -R $out/patch.diff
-(cd fastrace && cargo test --test $demo --offline 2>&1 | grep -E "^test result|^test .*(FAILED|ok)$|error(\[|:)" | head -12)
+(cd fastrace && RUSTFLAGS="${DEMO_RUSTFLAGS:-}" cargo test --test $demo --offline ${DEMO_RUSTFLAGS:+--target-dir /tmp/wt/target-demo-$id} 2>&1 | grep -E "^test result|^test .*(FAILED|ok)$|error(\[|:)" | head -12)
 echo "== with change: repository suite (demo removed)"
 git apply $out/patch.diff; rm fastrace/tests/$demo.rs
 cargo test --workspace --no-fail-fast --offline 2>&1 | grep -E "^test result" | awk '{p+=$4; f+=$6} END {print "passed",p,"failed",f}'
